@@ -532,7 +532,8 @@ class C15(Prop):
     def oblig_grid(self):
         """_OBLIGATORY_REACTOR_ITERATIONS = 0..3 x leftovers of a run whose f returns at once (the loop does not iterate, so what f scheduled is
         still there): calls that are due (run by the iterations) or not, that schedule further calls (chains, due in the next iteration or
-        never) or register selectables - afterwards nothing may be pending, and the next run must not see anything of it"""
+        never) or register selectables - afterwards nothing may be pending, and the next run must not see anything of it; and x
+        interrupted runs with timeout 0, whose own timeout call is still pending and due when _clean iterates"""
         out = []
         chains = [['spawn', 0, ['spawn', 0, 'noop']], ['spawn', 5, 'noop'], ['spawn', 0, 'addsel'], ['spawn', 0, ['spawn', 3, 'addsel']],
                   ['spawn', 1, ['spawn', 0, ['spawn', 0, 'noop']]], 'addsel', 'noop']
@@ -543,6 +544,13 @@ class C15(Prop):
                         out.append([False, [['run', 4, [], [['later', d, c], ['later', 0, 'noop']], term, n], 'clear', ['run', 2, [], [], ['ret', 9]]]])
                 out.append([False, [['run', 4, [[0, c]], [['later', 0, c]], ['ret', 3], n], 'clear', ['run', 2, [], [['later', 1, ['fire', 4]]], 'deferred', n]]])
             out.append([False, [['run', 3, [], [['later', 1, ['fire', 2]], ['later', 5, 'noop']], 'deferred', n], 'clear', ['run', 2, [[1, 'stop']], [], 'deferred', n]]])
+            # an interrupted run whose own timeout call is already due when _clean iterates: the iterations run it, after the result
+            # (NoResultError) has been read (seed C15-h cleaned first); the next run must not see the stored TimeoutError
+            nxt = ['clear', ['run', 2, [], [['later', 1, ['fire', 4]]], 'deferred', n]]
+            for pre, body in (([], [['now', 'stop']]), ([[0, 'stop']], []), ([], [['now', 'stop'], ['later', 0, 'noop']]),
+                              ([[0, 'stop'], [0, 'addsel']], [['later', 0, 'noop']])):
+                out.append([False, [['run', 0, pre, body, 'deferred', n]] + nxt])
+                out.append([False, [['run', 0, pre, body, 'deferred', n], ['run', 0, [], [], 'deferred', n]]])
         return out
 
     def late_grid(self):
